@@ -40,6 +40,7 @@ type job struct {
 	Variants []string          `json:"variants"`
 	Native   bool              `json:"native"`
 	Timeout  float64           `json:"timeout"`
+	KeepJS   bool              `json:"keep_js"`
 }
 
 type runOut struct {
@@ -49,6 +50,7 @@ type runOut struct {
 	Exit   int    `json:"exit"`
 	Err    string `json:"err,omitempty"`
 	JSLen  int    `json:"js_len,omitempty"`
+	JS     string `json:"js,omitempty"`
 }
 
 type pkgSet struct {
@@ -299,7 +301,11 @@ func runJob(j job, scratch string) (res result) {
 		if r.TimedOut { // loaded machine: once more, alone-ish, with a longer limit
 			r = gojs.RunNode(jsPath, 3*to)
 		}
-		res.Runs[v] = runOut{Stdout: clip(r.Stdout), Stderr: clip(r.Stderr), Class: r.Class(), Exit: r.Exit, JSLen: len(js)}
+		ro := runOut{Stdout: clip(r.Stdout), Stderr: clip(r.Stderr), Class: r.Class(), Exit: r.Exit, JSLen: len(js)}
+		if j.KeepJS {
+			ro.JS = string(js)
+		}
+		res.Runs[v] = ro
 	}
 	if j.Native {
 		bin := filepath.Join(dir, "native.bin")
